@@ -133,11 +133,16 @@ def canon_exception(e: BaseException) -> tuple:
 
 
 def _exc_extras(e: BaseException) -> tuple:
-    """What else a caller can observe on the exception object: notes and the classes of its cause / context."""
+    """What else a caller can observe on the exception object: its notes and the class of its explicit cause.
+
+    The implicit `__context__` is deliberately not part of an outcome.  It was for a few hours, and the seed sweep then
+    reported a "violation" on the unchanged tree: after a fault had been injected (by raising from the monitoring
+    callback) while the interpreter was unwinding another exception, a later, unrelated SyntaxError carried that
+    earlier exception as its context.  That is the interpreter's bookkeeping of *handled* exceptions reacting to the
+    injection, not state of the parser, and no property speaks about it."""
     notes = tuple(_scrub(str(n)) for n in getattr(e, "__notes__", ()) or ())
     cause = type(e.__cause__).__name__ if e.__cause__ is not None else None
-    context = type(e.__context__).__name__ if e.__context__ is not None else None
-    return (notes, cause, context)
+    return (notes, cause)
 
 
 _ATOMS = (str, bytes, int, float, complex, bool, type(None), type(Ellipsis))
